@@ -131,12 +131,24 @@ class Exec(common.BaseExec):
             else:
                 self.problem = base
         elif name == "eval":
-            _, xs, single, noisy, inject_seed, idx = op
+            _, xs, single, noisy, inject_seed, idx = op[:6]
+            reuse = bool(op[6]) if len(op) > 6 else False  # older replay files have no 7th field
             x = np.array(xs, dtype=float).reshape(-1, self.d)
             if self.X is not None:
                 # on-grid rows are given as negative-coded indices
                 pass
             arg = x[0].copy() if single else x.copy()
+            # caller-buffer history (seeded change C20-e): a caller may refill the array object it passed
+            # last time and pass it again; the answer must depend on its contents, not on its identity
+            if not hasattr(self, "bufs") or self.bufs_owner is not self.problem:
+                self.bufs, self.bufs_owner = {}, self.problem
+            if reuse and arg.shape in self.bufs:
+                buf = self.bufs[arg.shape]
+                if not np.array_equal(buf, arg):
+                    REC.faults["caller_buffer_refilled_in_place"] += 1
+                buf[...] = arg
+                arg = buf
+            self.bufs[arg.shape] = arg
             before = arg.copy()
             kw = {} if noisy else {"noisy": False}
             inj = InjectedNormal(inject_seed)
@@ -267,7 +279,7 @@ def make_machine(extra):
                         idx = data.draw(st.lists(st.integers(0, ex.m - 1), min_size=k, max_size=k))
                     if single and form == "list":
                         single = False
-                ex.apply(["eval", pts, single, noisy, data.draw(st.integers(0, 10**6)), idx])
+                ex.apply(["eval", pts, single, noisy, data.draw(st.integers(0, 10**6)), idx, data.draw(st.booleans())])
             else:
                 ex.apply(["law", self.draw_points(data, 1)[0], data.draw(st.integers(0, 10**6)), 4000])
 
